@@ -61,6 +61,7 @@ class GroupCoordinator(object):
         self.rng = cluster.sim.rng("groupcoord")
         self.log = []  # (t, logseq, group, event, details...)
         self.shuffle_listing = True
+        self.on_join_answer = None  # hook(pid of the real member, is_leader) as its JoinGroup is answered
 
     def group(self, name):
         g = self.cl.groups.get(name)
@@ -201,8 +202,10 @@ class GroupCoordinator(object):
                 self._prepare_rebalance(g)
 
     def _prepare_rebalance(self, g):
-        if g.state == AWAITING_SYNC:
-            for m in g.members.values():
+        # (also when the group has just become stable and the answers are still going out one by one: a member whose
+        # SyncGroup has not been answered yet is told to rejoin, it is never left waiting)
+        if True:
+            for m in list(g.members.values()):
                 if m.sync_pending is not None:
                     br, st, entry, rule = m.sync_pending
                     m.sync_pending = None
@@ -291,6 +294,8 @@ class GroupCoordinator(object):
             if g.history:
                 g.history[-1]["listing"] = [x.id for x in ms]
         entry["join_answer"] = {"generation": g.generation, "member": m.id, "leader": g.leader}
+        if self.on_join_answer is not None:
+            self.on_join_answer(getattr(m, "pid", None), m.id == g.leader)
         self.cl.respond(broker, st, entry, {"error": 0, "generation": g.generation, "protocol": g.protocol, "leader": g.leader,
                                             "member": m.id, "members": members}, rule)
 
